@@ -169,7 +169,7 @@ def templates(bs: bytes, other: bytes) -> List[List[Any]]:
          ["rcopy", "", "sub/data.bin", "grp", "sub/deep"], ["rmove", "sub", "data.bin", "abs", "/moved.bin"],
          ["rmove", "sub/deep", "data.bin", "rel", "renamed.bin"], ["rcopy", "sub", "deep/renamed.bin", "grp", ""],
          ["merge"], ["rcopy", "oth", "data.bin", "rel", "again.bin"], ["rmove", "", "data.bin", "rel", "sub/data.bin"], ["reopen"]],
-        [["pack", "sub/deep/data.bin", bs], ["pack", "sub/data.bin", other], ["pack", "data.bin", b"root twin"], ["bnd"],
+        [["pack", "sub/deep/k", b"d"], ["pack", "sub/deep/data.bin", bs], ["pack", "sub/data.bin", other], ["pack", "data.bin", b"root twin"], ["bnd"],
          ["rcopy", "sub/deep", "data.bin", "abs", "/c1.bin"], ["rcopy", "sub", "deep/data.bin", "abs", "/sub/c2.bin"],
          ["rmove", "sub", "deep/data.bin", "rel", "deep/m.bin"], ["bnd"], ["rcopy", "sub/deep", "m.bin", "grp", "sub"],
          ["rcopy", "sub", "data.bin", "grp", "sub/deep"], ["rcopy", "sub/deep", "data.bin", "abs", "/sub/deep/again.bin"],
